@@ -5,3 +5,5 @@ package main
 import "strconv"
 
 func itoa(i int) string { return strconv.Itoa(i) }
+
+var seededGen = func(seed int64) func() float64 { return drawsGen(seed) }
